@@ -79,6 +79,7 @@ type aliasSummary struct {
 	retRoot rootSet
 	writes  map[int]bool
 	scratch map[int]bool // parameters that are reset with p[:0] and refilled
+	retains map[int]bool // slice parameters stored (uncopied) into memory that outlives the call
 }
 
 type aliasAnalysis struct {
@@ -143,7 +144,7 @@ func newAliasAnalysis(c *Ctx, pkgrels []string) *aliasAnalysis {
 		}
 	}
 	for _, f := range a.funcs {
-		a.sum[f] = &aliasSummary{returns: map[int]bool{}, retRoot: rootSet{}, writes: map[int]bool{}, scratch: map[int]bool{}}
+		a.sum[f] = &aliasSummary{returns: map[int]bool{}, retRoot: rootSet{}, writes: map[int]bool{}, scratch: map[int]bool{}, retains: map[int]bool{}}
 		st := map[ssa.Value][]ssa.Value{}
 		for _, b := range f.Blocks {
 			for _, ins := range b.Instrs {
@@ -441,6 +442,25 @@ func (a *aliasAnalysis) summarize(f *ssa.Function) {
 						}
 					}
 				}
+				// a slice parameter stored as is into memory that outlives the call
+				if al := localAllocRoot(x.Addr); al == nil || al.Heap {
+					if _, isSl := x.Val.Type().Underlying().(*types.Slice); isSl {
+						for _, p := range ownBacking(x.Val, f) {
+							mark(s.retains, paramIndex(f, p))
+						}
+					} else if ld, ok := x.Val.(*ssa.UnOp); ok && hasSliceStorage(x.Val.Type(), 0) {
+						// a struct literal built in a local and stored by value
+						if loc, ok := ld.X.(*ssa.Alloc); ok && !loc.Heap {
+							for _, v := range a.stores[f][loc] {
+								if _, isSl := v.Type().Underlying().(*types.Slice); isSl {
+									for _, p := range ownBacking(v, f) {
+										mark(s.retains, paramIndex(f, p))
+									}
+								}
+							}
+						}
+					}
+				}
 				// heap field store: field-based propagation
 				if fa, ok := x.Addr.(*ssa.FieldAddr); ok && localAllocRoot(fa) == nil && (hasSliceStorage(x.Val.Type(), 0)) {
 					if fld := fieldOf(fa); fld != nil {
@@ -477,6 +497,13 @@ func (a *aliasAnalysis) summarize(f *ssa.Function) {
 									if rt.kind == rParam {
 										mark(s.writes, paramIndex(f, rt.obj.(*ssa.Parameter)))
 									}
+								}
+							}
+						}
+						for i := range gs.retains {
+							if i < len(cc.Args) {
+								for _, p := range ownBacking(cc.Args[i], f) {
+									mark(s.retains, paramIndex(f, p))
 								}
 							}
 						}
@@ -646,4 +673,39 @@ func (a *aliasAnalysis) computeReach(f *ssa.Function, al *ssa.Alloc) map[ssa.Ins
 		transfer(b, in[b], true)
 	}
 	return res
+}
+
+// ownBacking: the slice parameters of f whose own backing array v shares (v is the parameter
+// itself, a re-slice of it, or a phi/conversion of those; struct literals stored by value are
+// followed into their fields by the caller).
+func ownBacking(v ssa.Value, f *ssa.Function) []*ssa.Parameter {
+	var out []*ssa.Parameter
+	seen := map[ssa.Value]bool{}
+	var walk func(v ssa.Value, d int)
+	walk = func(v ssa.Value, d int) {
+		if d > 8 || seen[v] {
+			return
+		}
+		seen[v] = true
+		switch y := v.(type) {
+		case *ssa.Parameter:
+			if y.Parent() == f {
+				if _, ok := y.Type().Underlying().(*types.Slice); ok {
+					out = append(out, y)
+				}
+			}
+		case *ssa.Slice:
+			walk(y.X, d+1)
+		case *ssa.Phi:
+			for _, e := range y.Edges {
+				walk(e, d+1)
+			}
+		case *ssa.ChangeType:
+			walk(y.X, d+1)
+		case *ssa.Convert:
+			walk(y.X, d+1)
+		}
+	}
+	walk(v, 0)
+	return out
 }
